@@ -56,6 +56,30 @@ ExpandDims(a, ax) ==
   IF ~AxisOK(nd, ax) THEN Fail
   ELSE Ok(Arr(InsertAt(a.shape, NormAxis(nd, ax) + 1, 1), a.cells))
 
+\* expand_dims with a tuple of axes: positions refer to the result (rank nd + Len(axs)); repeated axes are an error
+ExpandDimsT(a, axs) ==
+  LET nd == NDim(a) + Len(axs)
+      ok == \A j \in DOMAIN axs : AxisOK(nd, axs[j])
+  IN IF ~ok THEN Fail
+     ELSE LET pos == {NormAxis(nd, axs[j]) + 1 : j \in DOMAIN axs}            \* 1-based positions of the new axes
+              old == SelectSeq([d \in 1..nd |-> d], LAMBDA d : d \notin pos)   \* positions that keep the old axes, in order
+          IN IF Cardinality(pos) # Len(axs) THEN Fail
+             ELSE Ok(Arr([d \in 1..nd |-> IF d \in pos THEN 1 ELSE a.shape[PosOf(old, d)]], a.cells))
+\* squeeze with a tuple of axes
+SqueezeT(a, axs) ==
+  LET nd == NDim(a) IN
+  IF \E j \in DOMAIN axs : ~AxisOK(nd, axs[j]) THEN Fail
+  ELSE LET pos == {NormAxis(nd, axs[j]) + 1 : j \in DOMAIN axs} IN
+       IF Cardinality(pos) # Len(axs) \/ \E d \in pos : a.shape[d] # 1 THEN Fail
+       ELSE Ok(Arr(SelectSeq([d \in 1..nd |-> IF d \in pos THEN -1 ELSE a.shape[d]], LAMBDA e : e # -1), a.cells))
+\* atleast_1d / atleast_2d / atleast_3d (inputs have at least one axis)
+AtLeastNd(a, k) ==
+  LET nd == NDim(a) IN
+  IF nd >= k THEN Ok(a)
+  ELSE IF k = 2 THEN Ok(Arr(<<1>> \o a.shape, a.cells))                             \* (n) -> (1, n)
+  ELSE IF nd = 1 THEN Ok(Arr(<<1>> \o a.shape \o <<1>>, a.cells))                   \* (n) -> (1, n, 1)
+  ELSE Ok(Arr(a.shape \o <<1>>, a.cells))                                           \* (m, n) -> (m, n, 1)
+
 (* flip / rot90 / roll *)
 FlipA(a, axes) ==      \* axes: set of 0-based axes
   Build(a.shape, LAMBDA t : At(a, [d \in DOMAIN t |-> IF d - 1 \in axes THEN a.shape[d] - 1 - t[d] ELSE t[d]]))
@@ -196,6 +220,21 @@ Block2(rows) ==
      ELSE LET as == [r \in DOMAIN rs |-> Arr(rs[r].shape, rs[r].cells)]
           IN IF ConcatOK(as, k - 1) THEN Ok(ConcatA(as, k - 1)) ELSE Fail
 
+\* depth 3: a list of lists of lists; arrays promoted to >= 3-d, joined along -1, then -2, then -3
+Block3(planes) ==
+  LET all == FlattenSeq(FlattenSeq(planes))
+      k   == IF MaxNd(all) > 3 THEN MaxNd(all) ELSE 3
+      ps  == [p \in DOMAIN planes |->
+                LET rs == [r \in DOMAIN planes[p] |->
+                             LET as == [j \in DOMAIN planes[p][r] |-> AtLeast(planes[p][r][j], k)]
+                             IN IF ConcatOK(as, k) THEN Ok(ConcatA(as, k)) ELSE Fail]
+                IN IF \E r \in DOMAIN rs : rs[r].err THEN Fail
+                   ELSE LET as == [r \in DOMAIN rs |-> Arr(rs[r].shape, rs[r].cells)]
+                        IN IF ConcatOK(as, k - 1) THEN Ok(ConcatA(as, k - 1)) ELSE Fail]
+  IN IF \E p \in DOMAIN ps : ps[p].err THEN Fail
+     ELSE LET as == [p \in DOMAIN ps |-> Arr(ps[p].shape, ps[p].cells)]
+          IN IF ConcatOK(as, k - 2) THEN Ok(ConcatA(as, k - 2)) ELSE Fail
+
 -----------------------------------------------------------------------------
 Squares(shape) == Arr(shape, [j \in 1..Size(shape) |-> j * j])
 
@@ -204,6 +243,11 @@ RowInputs(rows) ==
   LET flat == FlattenSeq(rows)
       off(r) == SumSeq([q \in 1..(r - 1) |-> Len(rows[q])])
   IN [r \in DOMAIN rows |-> [j \in DOMAIN rows[r] |-> Input(flat, off(r) + j)]]
+PlaneInputs(planes) ==
+  LET flat == FlattenSeq(FlattenSeq(planes))
+      rowsBefore(p) == FlattenSeq([q \in 1..(p - 1) |-> planes[q]])
+      off(p, r) == Len(FlattenSeq(rowsBefore(p))) + SumSeq([q \in 1..(r - 1) |-> Len(planes[p][q])])
+  IN [p \in DOMAIN planes |-> [r \in DOMAIN planes[p] |-> [j \in DOMAIN planes[p][r] |-> Input(flat, off(p, r) + j)]]]
 
 Res(c) ==
   LET a == IdArr(c.shape, 0) IN
@@ -214,6 +258,9 @@ Res(c) ==
     [] c.op = "swapaxes"     -> Swapaxes(a, c.a1, c.a2)
     [] c.op = "squeeze"      -> Squeeze(a, c.ax)
     [] c.op = "expand_dims"  -> ExpandDims(a, c.ax)
+    [] c.op = "expand_dims_t" -> ExpandDimsT(a, c.axs)
+    [] c.op = "squeeze_t"    -> SqueezeT(a, c.axs)
+    [] c.op = "atleast"      -> AtLeastNd(a, c.k)
     [] c.op = "flip"         -> Flip(a, c.ax)
     [] c.op = "rot90"        -> Rot90(a, c.k, c.a1, c.a2)
     [] c.op = "roll"         -> Roll(a, c.shift, c.ax)
@@ -230,6 +277,7 @@ Res(c) ==
     [] c.op = "stack"        -> Stack([k \in DOMAIN c.shapes |-> Input(c.shapes, k)], c.ax)
     [] c.op = "block1"       -> Block1([k \in DOMAIN c.shapes |-> Input(c.shapes, k)], 1)
     [] c.op = "block2"       -> Block2(RowInputs(c.rows))
+    [] c.op = "block3"       -> Block3(PlaneInputs(c.planes))
 
 -----------------------------------------------------------------------------
 (* Lazy-metadata clause on observations (unknown sizes are logged as -1) *)
